@@ -591,7 +591,10 @@ func (sg *skGen) genGeneralHistory(maxN int, exact bool) {
 		case 1:
 			o := live[r.Intn(len(live))]
 			if o == h {
-				continue
+				// a sketch merged into itself (it doubles), now and then, when no twin follows it
+				if _, hasTwin := twin[h]; hasTwin || !r.Bool(30) {
+					continue
+				}
 			}
 			if th, gh := sg.envOf(h); true {
 				to, g := sg.envOf(o)
